@@ -610,7 +610,12 @@ func c17Run(t *testing.T, rep *Report, cfg *c17Config, lines [][]byte, sample in
 	if unreached > 0 {
 		rep.Note("%s: %d model states were never reached concretely", cfg.Name, unreached)
 	}
-	if unreached*2 > len(nodes) || executed == 0 {
+	// (when faithful deliveries are refused - a violation that has been reported - the states behind them cannot be
+	// reached: that is a consequence of the behaviour under test, not harness trouble)
+	rep.mu.Lock()
+	found := len(rep.Violations)
+	rep.mu.Unlock()
+	if (unreached*2 > len(nodes) || executed == 0) && found == 0 {
 		rep.Break("%s: %d of %d model states not reached concretely (executed %d deliveries)", cfg.Name, unreached, len(nodes), executed)
 	}
 }
